@@ -75,6 +75,42 @@ CLAIMED = {
             'sentinels on both managers + fake redis.',
             'Trusted: Coq kernel + vm_compute; hand model tied by sampled correspondence; pickle/json decode oracle; fake redis module; '
             'the broker is an ordered reliable channel by assumption.', 'DESIGN.md section 6 C15'),
+    'C02': ('Coq theorems about a pipe model (sender packing + frames -> receiver reassembly + unpacking) built on the proved C01 round trip + '
+            'loopback of the real Client<->Server / AsyncClient<->AsyncServer through the real engine.io codecs, judged in Coq',
+            'Proof about E2E/Pipe.v (arguments, acks, call() results, order, both directions, default and msgpack serializers; json / msgpack '
+            'libraries as named pointwise oracle premises, hence "_partial") + bridge theorems to Server.v / Client.v + correspondence on 8 '
+            'configurations with frames compared byte-exact (default) or as dicts (msgpack).',
+            'Trusted: Coq kernel + vm_compute; hand models tied by the loopback correspondence; engine.io packet/payload codecs and msgpack are '
+            'trusted dependencies; single sender per direction.', 'DESIGN.md section 6 C02'),
+    'C08': ('Coq theorems about a hand model of client.py/async_client.py + differential correspondence with Client / AsyncClient over a fake engine.io client + Coq-checked checkers',
+            'Proof about Client/Client.v (connect sends, wait all-or-error, bad namespace, reset, disconnect once per cause, per-packet mirror lemmas) + '
+            'correspondence on generated histories (effects and state dump after every operation) + clause checkers on the implementation.',
+            'Trusted: Coq kernel + vm_compute; hand model tied by sampled correspondence; fake engine.io client reproducing connect / send / '
+            'disconnect / transport error / CLOSE / reset; the connect wait is modelled as a window (deterministic fake event).',
+            'DESIGN.md section 6 C08'),
+    'C09': ('Coq theorems about the client model (ack ids, callbacks, event dispatch, call()) + correspondence with Client / AsyncClient + Coq-checked checkers',
+            'Proof about Client/Client.v (ack-id invariant over all histories, unique, at most once, unknown ignored, right namespace, event -> one '
+            'handler + one ACK, call result / timeout) + correspondence + checkers on the implementation.',
+            'Trusted: as C08.', 'DESIGN.md section 6 C09'),
+    'C20': ('Coq theorems about a small-step interleaving model of the terminating paths at thread granularity (refutation, characterisation, '
+            'safety outside the window) + exhaustive scheduled runs of the real threaded Server',
+            'Proof about Conc/ServerConc.v: C20 is refuted on the pinned tree (two witnesses), every violating schedule goes through the '
+            'check-then-mark window (C20_only_via_double_check), schedules outside it and sequential ones are safe; all interleavings of 2 (thorough: 3) '
+            'terminating actions replayed on the real Server under a baton scheduler and compared with the model. Two open known findings.',
+            'Trusted: Coq kernel + vm_compute; hand model and its choice of atomic steps (every manager / transport access); deterministic thread '
+            'scheduler wrapping manager accessors, eio.send and handlers.', 'DESIGN.md section 6 C20'),
+    'C07': ('Coq theorems about a cluster model (N hosts, one FIFO channel, per-host cursor) refining the single-server model + correspondence with '
+            '2-4 real PubSubManager / AsyncPubSubManager instances on a shared in-memory channel',
+            'Proof about Cluster/PubSub.v (immediate consumption = single server; no double delivery on origin; callback once on issuer; '
+            'delayed consumption: at most once, eligibility, exactness for unraced messages) + correspondence under scheduled consumption.',
+            'Trusted: Coq kernel + vm_compute; hand model tied by sampled correspondence; the broker is an ordered reliable channel by assumption; '
+            'pickle as used by the bundled backends.', 'DESIGN.md section 6 C07'),
+    'C18': ('admin2coq translation of admin_connect and of the registration block from /repo on every run + Coq theorems (auth decision iff '
+            'documented condition; read-only registers no mutating handler; wrappers transparent) + side-by-side runs of plain and instrumented servers',
+            'Proof by translation for the authentication decision and the registration block (re-proved each run), hand model of the wrappers, '
+            'plus auth-payload mutations and application scenarios run on plain vs instrumented Server / AsyncServer.',
+            'Trusted: Coq kernel; admin2coq translator (validated each run against the real method); hand model of the wrappers tied by side-by-side runs.',
+            'DESIGN.md section 5, 6 C18'),
     'C10': ('Coq theorems about a hand model of the reconnection policy + differential correspondence with Client / AsyncClient over a fake engine.io client',
             'Proof about the model Reconnect/Reconnect.v (delay bounds, attempt limits, only-accidental, abort, single effort) for all '
             'parameters and fault scripts + correspondence on fault-script x parameter grids, waits observed through the wait primitive.',
@@ -87,7 +123,7 @@ CLAIMED = {
             'fake Client class.', 'DESIGN.md section 6 C19'),
 }
 
-READY = {'C01', 'C03', 'C04', 'C05', 'C06', 'C10', 'C15', 'C19', 'C11', 'C12', 'C13', 'C14', 'C16', 'C17'}
+READY = {'C01', 'C02', 'C03', 'C04', 'C05', 'C06', 'C09', 'C10', 'C15', 'C19', 'C20', 'C11', 'C12', 'C13', 'C14', 'C16', 'C17'}
 NOT_YET = 'check not built yet in this round; planned as described in DESIGN.md section 6'
 
 
